@@ -160,3 +160,38 @@ class Sched:
             return bool(en())
         except BaseException:  # noqa
             return True
+
+
+# ---------------------------------------------------------------------- event loops under the baton
+import asyncio
+import selectors
+
+
+class CoopSelector(selectors.SelectSelector):
+    """The loop's idle wait is a schedule point: enabled when a registered descriptor is readable (the
+    self-pipe written by call_soon_threadsafe), with the loop's next timer as deadline."""
+
+    def __init__(self, sched):
+        super().__init__()
+        self.sched = sched
+
+    def select(self, timeout=None):
+        ev = super().select(0)
+        if ev or timeout == 0:
+            return ev
+        deadline = None if timeout is None else self.sched.vt + timeout
+        peek = super().select
+        self.sched.point('loop.idle', enabled=lambda: bool(peek(0)), deadline=deadline)
+        return super().select(0)
+
+
+class BLoop(asyncio.SelectorEventLoop):
+    """Event loop driven by the baton scheduler: shared virtual clock, cooperative idle wait."""
+
+    def __init__(self, sched):
+        super().__init__(CoopSelector(sched))
+        self.sched = sched
+        self._clock_resolution = 1e-9
+
+    def time(self):
+        return self.sched.vt
